@@ -113,3 +113,20 @@ pub use crate::util::heap::gc_trigger::verif_hooks as gc_trigger_hooks;
 #[path = "verif_system.rs"]
 mod system;
 pub use system::*;
+// C17 / C18 / C19 (family "race"): forwarding protocol functions, per-thread recorder of atomic
+// metadata operations, mark/log/pin transition helpers, block pool with a settable worker ordinal.
+pub mod race {
+    pub use crate::plan::{BarrierSemantics, ObjectBarrier};
+    pub use crate::policy::immix::immixspace::verif_hooks as immix_hooks;
+    pub use crate::policy::largeobjectspace::verif_hooks as los_hooks;
+    pub use crate::scheduler::verif_set_worker_ordinal;
+    pub use crate::util::heap::blockpageresource::BlockPool;
+    pub use crate::util::metadata::mark_bit::MarkState;
+    pub use crate::util::metadata::verif_steps;
+    pub use crate::util::object_forwarding::{
+        attempt_to_forward, clear_forwarding_bits, forward_object, get_forwarding_status,
+        is_forwarded, is_forwarded_or_being_forwarded, read_forwarding_pointer,
+        spin_and_get_forwarded_object, state_is_being_forwarded,
+        state_is_forwarded_or_being_forwarded, write_forwarding_pointer,
+    };
+}
